@@ -212,6 +212,7 @@ def make_cases(run):
     cases += [("untyped", G.gen_untyped(rng)) for _ in range(nunt)]
     cases += [("interleave-spec", d) for d in G.gen_interleave_spec(rng, 30 if quick else 400)]
     cases += [("level-indexes-spec", d) for d in G.gen_level_indexes_spec(rng, 150 if quick else 3000)]
+    cases += [("near-interleave", d) for d in G.gen_near_interleave(rng, 45 if quick else 600)]
     for d, fw in G.gen_attached_spec(rng, 120 if quick else 1500):
         FW[d] = fw
         cases.append(("attached-spec", d))
